@@ -1,6 +1,6 @@
 (* C09 - tokens are always given back and waiting jobs eventually run.
    Statements only; every proof is `exact <lemma>`.  Model: model/TokenFS.v.
-   VF is the repaired code (fixes/C09-1..3), VL the literal code of the pinned commit.   *)
+   VF is the repaired code (fixes/C09-1..3 and C11-2), VL the literal code of the pinned commit. *)
 From Coq Require Import ZArith List.
 From XV Require Import model.TokenFS proofs.TokenFS_lemmas.
 Import ListNotations.
@@ -61,7 +61,10 @@ Theorem C09_crash_reclaim : forall C s q k,
 Proof. exact crash_reclaim. Qed.
 Print Assumptions C09_crash_reclaim.
 
+(* (Ended = the job process is gone: after an orderly end, pid file removed, or after a kill,
+   stale pid file left behind - j_pid is not constrained)                                 *)
 Theorem C09_crash_reclaim_fires : forall V C s q k,
+  reachable V C s ->
   p_alive (s_procs s q) = true -> In k (p_wat (s_procs s q)) -> j_ph (s_jobs s k) = Ended ->
   exists s', step V C s (Fire q k) = Some (s', ROk) /\ s_disk s' k = Absent.
 Proof. exact crash_reclaim_fires. Qed.
@@ -97,3 +100,11 @@ Theorem C09_idle_overfull_refuted : exists C tr s p,
   c_total C < p_avail (s_procs s p).
 Proof. exact idle_overfull_refuted. Qed.
 Print Assumptions C09_idle_overfull_refuted.
+
+(* start-up race of the code before fixes/C11-2 (the three C09 repairs applied): the watcher
+   thread started by __init__'s _update deletes a stale token file before the directory watch
+   is installed; StartRace is proved harmless for the repaired start-up by C09_eventual_launch *)
+Theorem C09_restart_race_refuted : exists C tr s p j,
+  run (mkV true true true false) C init tr = Some s /\ quiescent s /\ waiting_fits C s p j /\ p_obs (s_procs s p) = true.
+Proof. exact restart_race_refuted. Qed.
+Print Assumptions C09_restart_race_refuted.
